@@ -159,6 +159,8 @@ def _operand_desc(fn, op):
         return norm_path(fn.apath(pl))
     c = op_const(op)
     ex = c[2]
+    if c[0] == "bool" and "int" in ex:
+        return "const:true" if ex["int"] == "1" else "const:false"
     if "int" in ex:
         return "const:%s" % ex["int"]
     return "const:%s" % c[1]
